@@ -268,6 +268,52 @@ func checkC18(r *core.Result) {
 		})
 		r.Floor("successful returns of MarshalJSON", nRet, 4)
 	}
+	// J7: UnmarshalJSON reports success only after a runtime's JSON decoder accepted the document: every
+	// `return nil` directly follows `if err := <options>.Unmarshal(.., msg); err != nil { return <error> }`;
+	// a forwarded result must be the message's own UnmarshalJSON.
+	if f := core.FindFunc(root, "(*jsonUnmarshaler).UnmarshalJSON"); f != nil {
+		parents := parentMap(f.Decl.Body)
+		nRet := 0
+		ast.Inspect(f.Decl.Body, func(n ast.Node) bool {
+			ret, ok := n.(*ast.ReturnStmt)
+			if !ok || len(ret.Results) != 1 {
+				return true
+			}
+			if c, isCall := ret.Results[0].(*ast.CallExpr); isCall {
+				if fn := staticCallee(info, c); fn != nil && fn.Pkg() != nil && fn.Pkg().Path() == "fmt" {
+					return true // an error
+				}
+				nRet++
+				r.Ob("J7", "(*jsonUnmarshaler).UnmarshalJSON :: return "+types.ExprString(c)+" delegates to the message", prog.Pos(ret.Pos()), strings.HasSuffix(types.ExprString(c.Fun), ".UnmarshalJSON"), "a forwarded result must come from the message's own UnmarshalJSON")
+				return true
+			}
+			if !isNilIdentExpr(ret.Results[0]) {
+				return true
+			}
+			nRet++
+			okPrev := false
+			if blk, ok := parents[ret].(*ast.BlockStmt); ok {
+				for i, st := range blk.List {
+					if st != ast.Stmt(ret) || i == 0 {
+						continue
+					}
+					if is, ok := blk.List[i-1].(*ast.IfStmt); ok && is.Else == nil {
+						if as, ok := is.Init.(*ast.AssignStmt); ok && len(as.Rhs) == 1 {
+							if c, ok := as.Rhs[0].(*ast.CallExpr); ok {
+								if se, ok := c.Fun.(*ast.SelectorExpr); ok && se.Sel.Name == "Unmarshal" && returnsError(info, is.Body.List) {
+									okPrev = true
+								}
+							}
+						}
+					}
+				}
+			}
+			r.Ob("J7", "(*jsonUnmarshaler).UnmarshalJSON :: success is returned only after a runtime Unmarshal call", prog.Pos(ret.Pos()), okPrev,
+				"this `return nil` is not preceded by the error test of a runtime JSON Unmarshal call: a document is reported as decoded although no runtime decoded it (the runtimes give some documents, e.g. a bare null for google.protobuf.Value, a meaning)")
+			return true
+		})
+		r.Floor("successful returns of UnmarshalJSON", nRet, 4)
+	}
 	// nil tests first
 	for _, mname := range []string{"(*jsonMarshaler).MarshalJSON", "(*jsonUnmarshaler).UnmarshalJSON"} {
 		f := core.FindFunc(root, mname)
